@@ -208,8 +208,19 @@ JudgeBklr(e) ==
   ELSE IF e.plain /\ ((~IsNull(Skeleton(m.v))) # (~e.bkl.ok /\ e.bkl.required))
        THEN "bkl and bklr disagree on whether a required field is missing"
   ELSE ""
+(* a target that carries directives (outside C15's quantifier, kept as an extension): bkld works on *)
+(* the EVALUATED target, so base + layer must evaluate to what the specification's evaluator makes  *)
+(* of the target                                                                                     *)
+JudgeBkldDirective(e) ==
+  LET t == EvalAll(<<[id |-> "t", data |-> e.target]>>, <<>>) IN
+  IF ~t.ok THEN ""                      \* not a single evaluated target: no verdict
+  ELSE IF ~e.ok THEN "bkld failed on a target that evaluates"
+  ELSE IF ~e.applied.ok THEN "bkl rejects the emitted layer on top of the base"
+  ELSE IF JsonOuts(e.applied.outs) # JsonOuts(t.v) THEN "bkl evaluates base + emitted layer to something else than the evaluated target"
+  ELSE ""
 JudgeBkld(e) ==
-  IF ~e.ok THEN "bkld failed"
+  IF "directive" \in DOMAIN e THEN JudgeBkldDirective(e)
+  ELSE IF ~e.ok THEN "bkld failed"
   ELSE IF e.base = e.target /\ ~EmptyLayer(e.layer) THEN "base and target are equal but the emitted layer is not empty"
   ELSE IF ~ApplyLayer(e.base, e.layer).ok THEN "the emitted layer is not accepted on top of the base (specification)"
   ELSE IF ~DiffOK(e.base, e.target, e.layer) THEN "base + emitted layer does not evaluate to the target (specification)"
